@@ -17,9 +17,9 @@ use std::hash::BuildHasherDefault;
 use std::process::Command;
 use std::sync::{Arc, Barrier};
 
-pub const KINDS: [&str; 15] = ["pmh3", "pmh3hashmap", "pmh3a", "pmh3ahashmap", "pmh3asha", "pmh2", "ord", "smh", "smh2", "ssk", "dens",
+pub const KINDS: [&str; 16] = ["pmh3", "pmh3hashmap", "pmh3a", "pmh3ahashmap", "pmh3asha", "pmh2", "ord", "smh", "smh2", "ssk", "dens",
     // other instantiations of the generic sketchers, with parameters whose values exceed the narrower type's range
-    "ssk32wide", "smh32", "dens32", "denssparse"];   // (SuperMinHash2<u32> needs a 32-bit hasher: documented precondition)
+    "ssk32wide", "smh32", "dens32", "denssparse", "refitems"];   // (SuperMinHash2<u32> needs a 32-bit hasher: documented precondition)
 
 fn bh() -> BuildHasherDefault<FnvHasher> {
     BuildHasherDefault::<FnvHasher>::default()
@@ -96,6 +96,27 @@ pub fn sketch_text(kind: &str, m: usize, items: &[u64]) -> String {
             s.sketch_slice(items).unwrap();
             let kv: Vec<u64> = s.get_signature().iter().map(|x| *x as u64).collect();
             format!("{} ovf={}", join(&kv), s.get_nb_overflow())
+        }
+        "refitems" => {
+            // items are REFERENCES (&str into freshly allocated Strings at addresses that differ from call to call): the sketch must
+            // depend on what the items are, not on where they live
+            static BUMP: std::sync::atomic::AtomicUsize = std::sync::atomic::AtomicUsize::new(1);
+            let k = BUMP.fetch_add(1, std::sync::atomic::Ordering::SeqCst);
+            let pad: Vec<u8> = Vec::with_capacity(17 + 48 * (k % 61));
+            std::mem::forget(pad);                                            // shifts the allocator's next addresses
+            let strings: Vec<String> = items.iter().map(|x| format!("key-{:x}-{}", x, "p".repeat(k % 7))).map(|s| s[..s.len() - k % 7].to_string()).collect();
+            let refs: Vec<&str> = strings.iter().map(|s| s.as_str()).collect();
+            let mut a = SuperMinHash::<f64, &str, FnvHasher>::new(m, bh());
+            a.sketch_slice(&refs).unwrap();
+            let mut b = probminhash::setsketcher::SetSketcher::<u16, &str, FnvHasher>::new(probminhash::setsketcher::SetSketchParams::new(1.2, m as u64, 20.0, 65534), bh());
+            b.sketch_slice(&refs).unwrap();
+            let mut c = probminhash::densminhash::OptDensMinHash::<f64, &str, FnvHasher>::new(m, bh());
+            let _ = c.sketch_slice(&refs);
+            let mut d = probminhash::densminhash::RevOptDensMinHash::<f32, &str, FnvHasher>::new(m, bh());
+            let _ = d.sketch_slice(&refs);
+            let mut e = SuperMinHash2::<u64, &str, FnvHasher>::new(m, bh());
+            e.sketch_slice(&refs).unwrap();
+            format!("{} / {} / {} / {} / {}", join_fhx(a.get_hsketch()), join(&b.get_signature().iter().map(|x| *x as u64).collect::<Vec<_>>()), join(&c.get_hsketch_u64()), join(&d.get_hsketch_u64()), join(e.get_hsketch()))
         }
         "smh32" => {
             let mut s = SuperMinHash::<f32, u64, FnvHasher>::new(m, bh());
